@@ -97,9 +97,9 @@ def monitor_cancel(case, res, sem, g):
 
 def run(check):
     check.rule = ("fault enumeration over logical cancellation instants: the caller's context is cancelled when the k-th event is logged (every k of a "
-                  "recorded run; 14 sampled per program in quick), at every certain plugin-boundary event of never-ending programs (obeying / ignoring / "
+                  "recorded run; 14 sampled per program in quick), at every certain plugin-boundary event (deployment, run-time schema read, execution start/end) of never-ending programs (obeying / ignoring / "
                   "handler-less plugins, blocked deployment, foreach in progress) and (thorough) at schedule points of the run loop and providers; "
-                  "oracles: Go runtime deadlock report; executions open at cancellation get the cancel signal before their connection is closed (or are "
+                  "oracles: Go runtime deadlock report; executions open at cancellation - or begun after it - get the cancel signal before their connection is closed (or are "
                   "closed if they have no handler); nothing open at return; returned outputs have produced dependencies; return within 5 s + sum of closure "
                   "timeouts + slack (re-run alone before it counts); non-trivial = the cancellation fired before the run returned; distinct = (program, instant)")
     check.assumptions = ["time bound uses the monotonic clock with 2.5 s slack and is confirmed by an isolated re-run", "the scripted plugin blocks on channels only"]
